@@ -129,6 +129,8 @@ type scenario struct {
 
 var scenarios = map[string]*scenario{}
 
+var sharedSeqExecutor *genetics.SequentialPopulationEpochExecutor
+
 func popOpts(g *G) *neat.Options {
 	o := randOpts(g)
 	switch g.intn(4) {
@@ -288,7 +290,12 @@ func opEpoch(g *G) (interface{}, []uint64, int, interface{}) {
 	assignFitness(g, sc.pop, sc.landscape)
 	before := dumpPop(sc.pop)
 	old := append([]*genetics.Organism{}, sc.pop.Organisms...)
-	ex := &genetics.SequentialPopulationEpochExecutor{}
+	// an executor object is REUSED across turnovers, populations and option sets most of the time (it must not keep
+	// anything from an earlier call)
+	if sharedSeqExecutor == nil || g.chance(0.3) {
+		sharedSeqExecutor = &genetics.SequentialPopulationEpochExecutor{}
+	}
+	ex := sharedSeqExecutor
 	ctx := neat.NewContext(context.Background(), sc.opts)
 	var afterPrepare *JPop
 	var sortedIds []int
